@@ -10,8 +10,8 @@
    is loaded as that record (C11_written_xml_record_reloads).  Stability of whole documents and agreement with the specification reader are decided per run
    (correspondence + oracle over generated and mutated corpus trees). *)
 From Coq Require Import String List ZArith.
-From Prov Require Import Str StrProofs Sexp Tables Nsm NsmProofs Values Record World WorldProofs Jtree Json JsonProofs JsonSpec JsonRecProofs JsonContProofs
-  Xml XmlProofs XmlLabel XmlLabelProofs XmlRec XmlRead XmlRecProofs XmlReadProofs IdemProofs GoodProofs JsonValueProofs ShapeProofs XmlReadDoc XmlReadDocProofs.
+From Prov Require Import Str StrProofs Sexp Tables Nsm NsmProofs Values Record RecordProofs World WorldProofs Jtree Json JsonProofs JsonSpec JsonRecProofs JsonContProofs
+  Xml XmlProofs XmlLabel XmlLabelProofs XmlRec XmlRead XmlRecProofs XmlReadProofs IdemProofs GoodProofs JsonValueProofs ShapeProofs KindProofs JsonPrefixProofs JsonStableProofs XmlReadDoc XmlReadDocProofs.
 Import ListNotations.
 Open Scope string_scope.
 
@@ -47,6 +47,47 @@ Theorem C11_json_decoded_values_reload : forall ft t nd, decode_doc ft t = OK nd
   forall c m, cft c = ft -> Builtins m -> value_ok c m v -> rt c m v.
 Proof. exact decoded_values_roundtrip. Qed.
 Print Assumptions C11_json_decoded_values_reload.
+
+(* the kind of every record of a loaded document is one the writer can name: the PROV-N name of the kind is a key of the
+   record maps that stands for that kind again, and it is never Bundle *)
+Theorem C11_json_decoded_kinds : forall ft t nd, decode_doc ft t = OK nd ->
+  forall b r, In b (doc_containers nd) -> In r (brecs b) -> kind_ok (rkind r).
+Proof. exact decoded_records_kind. Qed.
+
+(* ---- "loading it yields a document d such that writing d and loading the result gives d again", PROV-JSON, documents
+   without bundles.  For every tree t the reader accepts: the structural premises of the round-trip theorem hold for the
+   document d it builds (kinds, dictionary shape, stored values of the kind the attribute demands: theorems above), so d,
+   written and loaded again, is the same records — each with its kind, identifier and all attribute values, in the order the
+   writer groups them (C01_grouped_is_permutation) — as soon as: the manager of d is plain (registered namespaces l under
+   pairwise different prefixes and URIs, none a built-in prefix or the word "default"); every record's formal attributes
+   hold one value each (Normal: two can only come from the membership path of finding C05-F1); and the names of d re-read as
+   themselves in the manager m the prefix block gives, values are value_ok there (names_ok: what findings C01-F1..F3 are
+   about; times valid, floats in the float table).  The premises speak about d, not about t. *)
+Theorem C11_json_stable : forall ft t d l,
+  decode_doc ft t = OK d -> dbundles d = [] ->
+  regd (bns (dmain d)) = map reg_entry l -> plain_regs l ->
+  match dflt (bns (dmain d)) with Some x => uri_ok (ns_uri x) = true | None => True end ->
+  let m := with_default (after l) (dflt (bns (dmain d))) in
+  Forall Normal (brecs (dmain d)) ->
+  Forall (names_ok (mkCtx None ft) m) (brecs (dmain d)) ->
+  decode_doc ft (encode_doc d)
+  = OK (mkD (add_all (with_ns (bundle_init None) m) (map renorm (grouped (brecs (dmain d))))) []).
+Proof. exact json_stable_flat. Qed.
+Print Assumptions C11_json_stable.
+
+(* any record meeting the parts is a record the round-trip theorems apply to *)
+Theorem C11_record_ok_of_parts : forall par ft m r,
+  Builtins m -> kind_ok (rkind r) -> GoodR ft r -> ShapeR r -> Normal r -> names_ok (mkCtx par ft) m r ->
+  rec_ok par ft m r.
+Proof. exact rec_ok_of_parts. Qed.
+
+(* the premises are satisfiable: a foreign tree (a multi-valued attribute as an array, an attribute-less record) loaded,
+   written and loaded again *)
+Example C11_json_stable_applies :
+  decode_doc [] t0 = OK d0 /\
+  decode_doc [] (encode_doc d0)
+  = OK (mkD (add_all (with_ns (bundle_init None) (with_default (after [exns]) None)) (map renorm (grouped (brecs (dmain d0))))) []).
+Proof. exact json_stable_flat_applies. Qed.
 
 (* the same for PROV-XML: XmlReadDoc.xml_read_document models the library's reader above record level (a fresh document;
    prov:other skipped; a bundleContent child becomes document.bundle(identifier read in the element's scope) and its
@@ -138,6 +179,5 @@ Theorem C11_written_xml_record_reloads : forall par ft fl prefix_of b scope kind
 Proof. exact xml_record_roundtrip. Qed.
 Print Assumptions C11_written_xml_record_reloads.
 
-(* full statements, not yet proved *)
-Definition C11_json_stable_statement : Prop :=
-  forall ft t d, decode_doc ft t = OK d -> exists d', decode_doc ft (encode_doc d) = OK d'.
+(* not yet proved: the same with bundles (C01_document_roundtrip has the bundle side; its premises bundle_ok are not yet
+   derived for loaded documents) and for PROV-XML above record level *)
